@@ -131,6 +131,15 @@ def run_verus(path, rlimit=None, seed=None, extra=None, timeout=900, multi=8):
     return r
 
 
+import threading
+REPLAY_LOCK = threading.Lock()
+
+
+def tag(repo):
+    """one cargo target dir per tree under check: cargo's mtime fingerprints cannot see a symlink flip"""
+    return "" if repo == "/repo" else "-" + hashlib.sha256(repo.encode()).hexdigest()[:8]
+
+
 def short(fn):
     """strip the crate prefix from a verus function name"""
     return fn.split("::", 1)[1] if "::" in fn else fn
@@ -306,7 +315,7 @@ def scan_trusted(unit, name):
 def kani_harness(pid, spec, repo, tier, out):
     """spec: dict(harness=..., bounded=None|str, desc=...)"""
     crate = os.path.join(VERIF, "kani")
-    env = dict(os.environ, CARGO_NET_OFFLINE="true", CARGO_TARGET_DIR=os.path.join(VERIF, ".cache", "kani-target"),
+    env = dict(os.environ, CARGO_NET_OFFLINE="true", CARGO_TARGET_DIR=os.path.join(VERIF, ".cache", "kani-target" + tag(repo)),
                COPIA_REPO=repo)
     prepare_kani_crate(repo)
     cmd = ["cargo", "kani", "-Z", "function-contracts", "-Z", "stubbing", "--harness", spec["harness"]]
@@ -333,6 +342,11 @@ def kani_harness(pid, spec, repo, tier, out):
         out.obligations.append(rec)
     if total == 0:
         out.undecided.append("kani harness %s generated zero checks (vacuous)" % spec["harness"])
+    cov = re.search(r"\*\* (\d+) of (\d+) cover properties satisfied", txt)
+    if cov:
+        rec["covers"] = "%s/%s" % (cov.group(1), cov.group(2))
+        if cov.group(1) != cov.group(2):
+            out.undecided.append("kani harness %s: only %s of %s reachability covers satisfied (vacuity guard)" % (spec["harness"], cov.group(1), cov.group(2)))
     if m.group(1) != "SUCCESSFUL":
         failed_checks = re.findall(r"Check \d+: (\S+)\s*\n\s*- Status: FAILURE\s*\n\s*- Description: \"(.*?)\"\s*\n\s*- Location: (\S+)", txt)
         # concrete playback for the witness
@@ -366,7 +380,7 @@ def replay_bin(repo):
     """build (incrementally) the native replay crate against repo; returns path or None"""
     crate = os.path.join(VERIF, "replay")
     if not os.path.isdir(crate):
-        return None
+        return None, "replay crate missing"
     link = os.path.join(crate, "repo")
     if os.path.islink(link) and os.readlink(link) != repo:
         os.unlink(link)
@@ -375,18 +389,17 @@ def replay_bin(repo):
     lock = os.path.join(repo, "Cargo.lock")
     if os.path.exists(lock) and not os.path.exists(os.path.join(crate, "Cargo.lock")):
         shutil.copyfile(lock, os.path.join(crate, "Cargo.lock"))
-    env = dict(os.environ, CARGO_NET_OFFLINE="true", CARGO_TARGET_DIR=os.path.join(VERIF, ".cache", "replay-target"))
-    rc, so, se, _ = run(["cargo", "build", "--release", "--offline", "-q"], cwd=crate, env=env, timeout=1800)
+    td = os.path.join(VERIF, ".cache", "replay-target" + tag(repo))
+    env = dict(os.environ, CARGO_NET_OFFLINE="true", CARGO_TARGET_DIR=td)
+    with REPLAY_LOCK:
+        rc, so, se, _ = run(["cargo", "build", "--release", "--offline", "-q"], cwd=crate, env=env, timeout=1800)
     if rc != 0:
         return None, se[-1500:]
-    return os.path.join(VERIF, ".cache", "replay-target", "release", "copia-replay"), None
+    return os.path.join(td, "release", "copia-replay"), None
 
 
 def search_witness(repo, contract, seed, budget=20):
-    rb = replay_bin(repo)
-    if rb is None:
-        return None
-    b, err = rb
+    b, err = replay_bin(repo)
     if b is None:
         return dict(error="replay crate does not build against this tree: " + (err or ""))
     rc, so, se, _ = run([b, "search", contract, str(seed), str(budget)], timeout=budget + 60)
@@ -400,11 +413,7 @@ def search_witness(repo, contract, seed, budget=20):
 
 
 def twin_validate(pid, spec, repo, tier, seed, out):
-    rb = replay_bin(repo)
-    if rb is None:
-        out.undecided.append("replay crate missing")
-        return
-    b, err = rb
+    b, err = replay_bin(repo)
     if b is None:
         out.undecided.append("replay crate does not build against this tree (assumed contracts not validated): " + (err or "")[-300:])
         return
